@@ -11,10 +11,12 @@ _N1 = ("Trusted base: SimTransport (replica of the gRPC transport contract), Sim
 
 TEXT = {
     "C01": {"level": _E1 + "Oracle: leader ledger (AppendEntries emitted with term T, Leader role reports) has at most one node per "
-                           "term; a node grants at most one candidate per term within an incarnation.", "note": _N1},
+                           "term; a node grants at most one candidate per term within an incarnation. Clusters of 1-5 voters including the even "
+                           "sizes 2 and 4 with half/half partitions; leaders isolated at the instant they are elected.", "note": _N1},
     "C02": {"level": _E1 + "Oracle over the vote/term ledger across incarnations: granted votes per (voter, term) go to one candidate "
                            "even across process crash / power loss / graceful restart; the term a node reports after restart is >= "
-                           "every term it externalised before.", "note": _N1 + " SimMetaStore writes hard state through (ideal engine)."},
+                           "every term it externalised before. Crashes include the event-anchored CrashOnGrant (the voter is killed at "
+                           "the instant its n-th granted vote response leaves).", "note": _N1 + " SimMetaStore writes hard state through (ideal engine)."},
     "C03": {"level": _E1 + "Oracle at every Leader transition: the node's own voter view is empty, or granted term-T votes (recorded "
                            "when the response left the voter) form a majority of voters+self - under the view at election time or at "
                            "vote-request time.", "note": _N1},
@@ -32,14 +34,20 @@ TEXT = {
                            "prev+1+k; follower logs are checked gap-free (C04 oracle). Per-request cap drawn from 1..100 with followers "
                            "lagging behind it.", "note": _N1},
     "C09": {"level": _E1 + "At every leader commit advance to N in term T: entry N has term T and the voters (leader's own membership "
-                           "view) whose success ACK with match >= N and term T was delivered to this leader, plus the leader, are a majority.", "note": _N1},
+                           "view) whose success ACK with match >= N and term T was delivered to this leader, plus the leader, are a majority; "
+                           "and (literal form) a majority of those voters actually hold entry N in their live log at that instant. "
+                           "Includes a batch with learner promotions exposed.", "note": _N1},
     "C10": {"level": _E1 + "Client history (invoke/return stamped with a global event sequence) checked per key for linearizability with "
-                           "crashes invisible; every acknowledged write must be in the commit/apply ledger.", "note": _N1 + " Histories over 60 ops or 12 indeterminate ops per key are reported as not checked."},
+                           "crashes invisible; every acknowledged write must be in the commit/apply ledger, and at the end of the run its entry "
+                           "is still what every live node holds at that committed index (acked_write_lost); a final linearizable read "
+                           "of every key through the leader closes each history.", "note": _N1 + " Histories over 60 ops or 12 indeterminate ops per key are reported as not checked."},
     "C11": {"level": _E1 + "Linearizability check of all acknowledged LinearizableRead results together with all writes, under leader "
                            "isolation longer than the lease, slow return paths and apply lag (scenario 'lease', 3 and 5 voters).", "note": _N1},
     "C12": {"level": _E1 + "Lease reads (fast path through EmbeddedClient/read handle and the Raft path) are included in the "
                            "linearizability check; every configuration the generator draws passes validate() and is asserted to have "
-                           "lease < election_timeout_min.", "note": _N1 + " Equal-rate clocks assumed."},
+                           "lease < election_timeout_min. Direct oracle: a lease read answered by a node after another node acted as "
+                           "leader of a higher term, with the cause classified from the ACK ledger (which voters/learners acknowledged "
+                           "the deposed leader in the lease window, and when the acknowledged requests were sent).", "note": _N1 + " Equal-rate clocks assumed."},
     "C13": {"level": _E1 + "Scenario 'routing': every read carries a unique never-written marker key, so the state-machine read that "
                            "produced each answer is identified together with the handle it came through (Raft loop, ReadActor, embedded "
                            "direct path), the node's role and its lease validity at that instant. Reads go through the raw command "
@@ -109,12 +117,15 @@ TEXT = {
     "C26": {"level": _E1 + "Every 25 virtual ms: for every two live nodes that are voters in their own view, no majority of one view is "
                            "disjoint from a majority of the other (closed form over the two voter sets).", "note": _N1},
     "C27": {"level": _E1 + "No vote request or granted vote ever originates from a node whose role is Learner; learners' ACKs are never "
-                           "needed for a commit (C09 oracle in the same runs).", "note": _N1 + " Join-response timing and promotion catch-up are not yet checked."},
+                           "needed for a commit (C09 oracle in the same runs); a read served by a deposed leader whose only recent "
+                           "acknowledgements came from learners is a learner counted toward a lease/read quorum (scenario leaselearner: "
+                           "the leader is cut off from the voters together with a learner).", "note": _N1 + " Join-response timing and promotion catch-up are not checked."},
     "C28": {"level": _E1 + "Membership plans (learners joining, automatic promotion) with graceful restarts, process crashes, power loss and "
                            "whole-cluster restarts of any node at any point, each restart with the original initial_cluster. Oracle "
                            "right after every rebuild: members/voters/learners of the node equal the fold of all committed "
                            "membership changes at or below the node's applied index (taken from the commit ledger) over its "
-                           "initial configuration.", "note": _N1 + " The harness replicates NodeBuilder's start-up decisions (membership from initial_cluster, commit index = applied index)."},
+                           "initial configuration; and at the end of the run every membership change the node applied again after a restart "
+                           "is in its view.", "note": _N1 + " The harness replicates NodeBuilder's start-up decisions (membership from initial_cluster, commit index = applied index)."},
     "C29": {"level": _E1 + "Each acknowledged write's own entry was applied on the answering node before the reply (event sequence "
                            "numbers); CAS replies equal the applied outcome; unique values make crossed responses visible.", "note": _N1},
     "C30": {"level": _E1 + "Raw client commands with their own oneshot and no client timeout: an answer must arrive within "
@@ -123,7 +134,9 @@ TEXT = {
     "C31": {"level": _E1 + "Every node's leader-change watch is drained: terms never decrease per incarnation, one leader id per term "
                            "across nodes, every notified (leader, term) is in the leader ledger.", "note": _N1},
     "C32": {"level": _E1 + "After the last fault: heal, restart everything, quiet period max(10 x election_timeout_max, 3 x general "
-                           "timeout, 8 s); then a leader exists, a fresh write commits and every live voter applied up to the commit index.", "note": _N1},
+                           "timeout, 8 s); then a leader exists, a fresh write commits (judged by the commit ledger) and every live voter "
+                           "applied up to the commit index. Includes leaders isolated or crashed at the instant of their election "
+                           "(scenario newleader) so that logs end in terms nobody else knows.", "note": _N1},
     "C33": {"level": _E1 + "Small snapshot thresholds so that snapshots and purges happen (thousands per batch), with lagging and "
                            "restarting peers. Safety oracle at the instant of every LogStore::purge call: cutoff <= highest committed "
                            "index (commit ledger) and <= the boundary of the snapshot the node holds. Progress oracle after the quiet "
